@@ -64,6 +64,7 @@ def judge_reads(ctx, sess, facts, case, reads):
     for i, data in enumerate(reads):
         sig = ("C03e2e", sess.encoding, sess.mode, sess.pt, tuple(reads[:i + 1]))
         # the start of a keypress that ends a read is kept by Input and completed by the next read
+        whole = carry + data
         try:
             want, carry = drive_partial(events.get_key, carry + data, sess.encoding, km)
             want_exc = None
@@ -78,6 +79,22 @@ def judge_reads(ctx, sess, facts, case, reads):
             return
         except Exception as ex:  # noqa
             got, got_exc = None, type(ex).__name__
+        if want_exc == "UnicodeDecodeError" and got_exc is None:
+            # the decoder itself fails on this read (recorded finding: a sequence prefix followed by
+            # a byte that does not decode). Input may pass the failure on - or recover from it, and
+            # then it has to hand back the bytes it was given, in order, nothing lost
+            if sess.mode == "bytes":
+                joined = b"".join(k for k in got if isinstance(k, bytes))
+                ok = all(isinstance(k, bytes) for k in got) and whole.startswith(joined) and \
+                    len(whole) - len(joined) < events.MAX_KEYPRESS_SIZE
+            else:
+                ok = len(got) >= 1
+            ctx.judge(ok, case, sig, "C03:input-recovers-lossily", whole, got, nontrivial=nontrivial)
+            ctx.count("e2e_reads_where_input_recovers_from_a_decoder_error")
+            sess.reset()
+            if not ok:
+                return
+            continue
         if want_exc or got_exc:
             ok = want_exc == got_exc
             ctx.judge(ok, case, sig, "C03:input-differs-from-decoder", want_exc, got_exc or got,
